@@ -66,3 +66,27 @@ Example hk_fuel_ex : hk_fuel [(0, [0; 1]); (1, [0])] = 5. Proof. reflexivity. Qe
 Print Assumptions bipartite_match_tie.
 Print Assumptions bipartite_match_result_tie.
 Print Assumptions bipartite_match_enough_fuel.
+
+(* Closing the loop on examples: match_events with its callees _fast_hit_windows and _bipartite_match run as the GENERATED programs
+   themselves (the graph then lives in the heap, as in CPython, not as a read-only value) still returns the model's answer.
+   (For all inputs this composition is proved only up to the reading "a dict the callee never writes to or tests for identity may
+   be passed as a read-only value": match_events_tie has the model's bipartite_match as callee, bipartite_match_tie takes graph_val g.) *)
+Fixpoint prog_ext (k : nat) (f : string) (h : heap) (args : list val) : out (heap * val) :=
+  match k with
+  | O => FUEL
+  | S k' => if (String.eqb f "_fast_hit_windows" || String.eqb f "_bipartite_match")%bool
+            then run match_funs (prog_ext k') 60 f h None args else UNM
+  end.
+Definition closed_match_events (ref est : list QArith_base.Q) (w : QArith_base.Q) : out obj :=
+  result_obj (run match_funs (prog_ext 2) 10 "match_events" [] None [VVec ref; VVec est; VFloat w; VNone]).
+Definition closed_agrees (c : list QArith_base.Q * list QArith_base.Q * QArith_base.Q) : bool :=
+  let '(r, e, w) := c in
+  match closed_match_events r e w, Events.match_events r e w with
+  | OK (OList l), Some l' => list_veqb l (map pair_val l')
+  | _, _ => false end.
+Definition qz (z : Z) : QArith_base.Q := QArith_base.Qmake z 1.
+Definition qh (z : Z) : QArith_base.Q := QArith_base.Qmake z 2.
+Example closed_examples : forallb closed_agrees
+  [ ([], [], qz 1); (map qz [1; 2; 3], map qz [1; 2; 3], qz 0); ([qh 1; qz 3; qz 2; qz 1], [qz 2; qh 1; qz 7], qz 1);
+    (map qz [0; 1; 2; 3; 4], map qz [1; 1; 1; 2; 5], qz 1); (map qz [5; 1; 3], map qz [2; 4; 6; 0], qh 3) ]%Z = true.
+Proof. vm_compute. reflexivity. Qed.
